@@ -4,7 +4,7 @@ SPEC = dict(
     proof_module="SimbodyProofs.C06",
     sources=["SimbodyModel/Proto.lean", "SimbodyModel/Mobilizer.lean", "SimbodyModel/MobilizerIO.lean",
              "SimbodyProofs/MobilizerLemmas.lean", "SimbodyProofs/C06.lean", "Drivers/C06.lean"],
-    n=dict(quick=300, thorough=10000),
+    n=dict(quick=600, thorough=20000),
     rtol=1e-9, atol=1e-12,
     rule="random trees (1-5 bodies quick, 1-10 thorough; chain/star/random branching; all 18 built-in types, random frames "
          "and directions, quaternion mode, gravity) from VERIF_SEED; per tree four variant models are built (Euler-converted "
